@@ -281,6 +281,29 @@ def scenarios():
                   edit('c0', ['context'], None, delete=True), call('c0', 'm+rawa+m10'),
                   call('c0', 'trf-s(2)'), call('c0', 'trf-s'), call('c0', 'trf-t(17.25, 2, 33.75)'), call('c0', 'trf-t(9)'),
                   call('c0', 'bg:ov+bd-q')])
+    # the host edits the SNIPPETS of a stylesheet config it keeps using: without a cache of its own, and with one it
+    # clears whenever it edits (assumption A1); and it reloads global stylesheet snippets between calls
+    for holder in ('dict', 'Config'):
+        for cache in (None, 'k0'):
+            c = dict(st, holder=holder, snippets=dict(STYLE_SN))
+            if cache:
+                c['cache'] = cache
+            clr = [{'op': 'clear_cache', 'cache': 'k0'}] if cache else []
+            scen('stylesheet-snippets-edited/%s/%s' % (holder, cache), _w([c], caches=['k0'] if cache else []),
+                 [call('c0', 'kmar+zidx+m10')] + clr + [edit('c0', ['snippets', 'kmar'], 'margin:20 30')] + clr + [call('c0', 'kmar+zidx+m10')] +
+                 clr + [edit('c0', ['snippets', 'kmar'], 'margin-left:1', inplace=False), edit('c0', ['snippets', 'newsn'], 'new-prop:7', inplace=False)] + clr + [call('c0', 'kmar+newsn+zidx'), call('c0', 'm10')] +
+                 clr + [edit('c0', ['snippets', 'm'], 'margin-x:${1:0}')] + clr + [call('c0', 'm10+m'), call('c0', 'kmar')] +
+                 clr + [edit('c0', ['snippets', 'm'], None, delete=True)] + clr + [call('c0', 'm10+m'), call('c0', 'newsn+kmar')] +
+                 clr + [edit('c0', ['syntax'], 'sass')] + clr + [call('c0', 'm10+kmar')])
+    gs1 = {'stylesheet': {'snippets': {'gsn': 'global-one:1', 'm': 'margin-g1'}}, 'css': {'snippets': {'csn': 'css-one:1'}}}
+    gs2 = {'stylesheet': {'snippets': {'gsn': 'global-two:2'}}, 'css': {'snippets': {'csn': 'css-two:2', 'p': 'padding-g2'}}}
+    scen('stylesheet-global-snippets-reloaded', _w([{'id': 'c0', 'holder': 'dict', 'type': 'stylesheet', 'global': 'g0'},
+                                                    {'id': 'c1', 'holder': 'Config', 'type': 'stylesheet', 'global': 'g0'},
+                                                    {'id': 'c2', 'holder': 'dict', 'type': 'stylesheet'}], globals_={'g0': gs1}),
+         [call('c0', 'gsn+csn+m10+p5'), call('c1', 'gsn+csn+m10+p5'), call('c2', 'gsn+csn+m10+p5'), {'op': 'set_global', 'global': 'g0', 'layer': gs2},
+          call('c0', 'gsn+csn+m10+p5'), call('c1', 'gsn+csn+m10+p5'), {'op': 'rebuild_cfg', 'cfg': 'c1'}, call('c1', 'gsn+csn+m10+p5'), call('c2', 'gsn+csn+m10+p5'),
+          {'op': 'set_global', 'global': 'g0', 'layer': {}}, call('c0', 'gsn+csn+m10+p5'), {'op': 'rebuild_cfg', 'cfg': 'c1'}, call('c1', 'gsn+csn+m10+p5'),
+          {'op': 'set_global', 'global': 'g0', 'layer': gs1}, call('c0', 'gsn+csn+m10+p5'), call('c2', 'gsn+csn+m10+p5')])
     mk = {'id': 'c0', 'holder': 'dict', 'snippets': dict(USER_SN), 'variables': {'lang': 'fr'}, 'text': ['one', 'two']}
     for holder in ('dict', 'Config', 'dict+cache', 'Config+cache'):
         c = dict(mk, holder=holder.split('+')[0])
